@@ -158,7 +158,7 @@ Proof.
     destruct rerr as [[|]|]; simpl; rewrite ?Hl; apply lock_outcome_quiet; repeat apply no_increase_app; assumption.
   - destruct (0 <? d2).
     + pose proof (scale_up_lock e o mx dry st2 a1 tainted d2) as Hu. cbv zeta in Hu.
-      destruct (up_out (scale_up e o mx dry st2 a1 tainted d2)); unfold mk; cbn [r_state r_calls]; rewrite with_last_out_lock;
+      destruct (up_out (scale_up e o mx dry st2 a1 tainted d2)); unfold mk; cbn [r_state r_calls]; rewrite ?with_last_out_lock;
         (apply lock_outcome_prefix; [assumption|]); (apply lock_outcome_prefix; assumption).
     + destruct (try_delete_nodes e a1 (reap_candidates e o dry pods tainted)) as [[rcalls rerr] a2] eqn:Er.
       destruct (try_delete_nodes_calls _ _ _ _ _ _ Er) as [_ [Hr _]]. apply removal_no_increase in Hr.
